@@ -61,6 +61,4 @@ nopanic!(c05_datetime_partial_len4, parse_datetime_partial, 4, 16);
 nopanic!(c05_datetime_partial_len8, parse_datetime_partial, 8, 16);
 nopanic!(c05_datetime_partial_len14, parse_datetime_partial, 14, 20);
 nopanic!(c05_datetime_partial_len19, parse_datetime_partial, 19, 24);
-nopanic!(c05_date_range_len9, parse_date_range, 9, 16);
-nopanic!(c05_date_range_len17, parse_date_range, 17, 22);
-nopanic!(c05_time_range_len9, parse_time_range, 9, 16);
+// range parsers (split on '-' + two partial parsers + chrono conversions): measured > 10 GB / 15 min for 9 input bytes; not harnessed.
